@@ -115,7 +115,10 @@ impl AffineRepr for AffinePoint {
     }
 
     fn from_random_bytes(bytes: &[u8]) -> Option<Self> {
-        EdwardsAffine::from_random_bytes(bytes).map(|inner| AffinePoint { inner })
+        // Only canonical encodings name decaf377 group elements; an arbitrary
+        // curve point would lie outside the group (the cofactor is declared as 1).
+        let encoding = crate::Encoding::try_from(bytes).ok()?;
+        encoding.vartime_decompress().ok().map(Into::into)
     }
 
     fn mul_bigint(&self, other: impl AsRef<[u64]>) -> Self::Group {
